@@ -68,6 +68,8 @@ Section Log.
   | SpCleanup (now : Z)
   | SpPop (m : Z)
   | SpOther                                                           (* (un)registering a callback *)
+  | SpInsert (now m : Z) (attrs : list (option V)) (ts : option Z)    (* an update handed to the table directly: not
+                                                                         subject to the ordered-stream rule, no expiry *)
   | SpSetTtl (ttl : option Z)                                         (* a new TTL is configured *)
   | SpUnordered.                                                      (* the tracker is switched to unordered mode *)
 
@@ -84,6 +86,9 @@ Section Log.
       if sp_rejected ordered m t log then log else map SRem expired ++ SUpd m a t :: log
     | SpCleanup _ => map SRem expired ++ log
     | SpPop m => SRem m :: log
+    | SpInsert now m a ts =>
+      let t := match ts with Some t => t | None => now end in
+      if sp_older t m log then log else SUpd m a t :: log
     | SpOther | SpSetTtl _ | SpUnordered => log
     end.
 
@@ -110,6 +115,9 @@ Section Log.
       else let log1 := SUpd m a t :: log in map SRem (sp_expired ttl now log1) ++ log1
     | SpCleanup now => map SRem (sp_expired ttl now log) ++ log
     | SpPop m => SRem m :: log
+    | SpInsert now m a ts =>
+      let t := match ts with Some t => t | None => now end in
+      if sp_older t m log then log else SUpd m a t :: log
     | SpOther | SpSetTtl _ | SpUnordered => log
     end.
 
